@@ -229,9 +229,15 @@ class Report:
     def bump(self, key, n=1):
         self.extra[key] = self.extra.get(key, 0) + n
 
+    MAX_REPLAYS = 3
+
     def violation(self, kind, detail, replay_obj, no_input=False):
         os.makedirs(REPLAY_DIR, exist_ok=True)
         k = len(self.violations)
+        if k >= self.MAX_REPLAYS and not no_input:
+            # further failing inputs are only counted (the evidence says how many)
+            self.bump("failing_inputs_not_written")
+            return
         path = os.path.join(REPLAY_DIR, f"{self.pid}_{self.tier}_{self.seed}_{k}.json")
         with open(path, "w") as f:
             json.dump({"property": self.pid, "kind": kind, "detail": detail, "replay": replay_obj,
